@@ -105,6 +105,18 @@ Theorem C04_sewer_discharge_moves_what_its_arcs_record : forall S (P : port S) (
       (sumvin S c (qn_outs S n') - sumvin S c (qn_outs S n)) + cmp c dust.
 Proof. exact sw_discharge_books. Qed.
 Print Assumptions C04_sewer_discharge_moves_what_its_arcs_record.
+(* QueueGroundwater.distribute (after its repair: the remainder is subtracted componentwise): the same books, exactly *)
+Theorem C04_queue_groundwater_distribute_moves_what_its_arcs_record : forall S (P : port S) (K : contract S P),
+  (forall s v, okS S P K s -> wet v -> forall k, vol (snd (p_push_set P s v)) <= 0 -> get (adds (snd (p_push_set P s v))) k == 0) ->
+  forall maxiter (n n' : qnode S),
+  star_ok S P K (qn_outs S n) -> qledger (qn_t S n) ->
+  wet (vsum (s_act (qt_s (qn_t S n))) (bget (l_b (qt_l (qn_t S n))) 0)) ->
+  qg_distribute S P maxiter n = Some n' ->
+  star_ok S P K (qn_outs S n') /\ qledger (qn_t S n') /\
+  forall c, conserved c ->
+    cmp c (s_sto (qt_s (qn_t S n))) - cmp c (s_sto (qt_s (qn_t S n'))) == sumvin S c (qn_outs S n') - sumvin S c (qn_outs S n).
+Proof. exact qg_distribute_books. Qed.
+Print Assumptions C04_queue_groundwater_distribute_moves_what_its_arcs_record.
 Example C04_tank_backed_neighbours_meet_the_hypothesis :
   forall s v, okS _ _ tank_contract s -> wet v -> forall k,
     vol (snd (p_push_set nbport s v)) <= 0 -> get (adds (snd (p_push_set nbport s v))) k == 0.
